@@ -1,12 +1,12 @@
 package rules
 
 import (
-	"strconv"
-	"regexp"
 	"fmt"
 	"go/constant"
 	"go/token"
 	"go/types"
+	"regexp"
+	"strconv"
 	"strings"
 
 	"golang.org/x/tools/go/ssa"
@@ -433,6 +433,17 @@ func runC11(c *Ctx) {
 	}
 
 	// ---- C11.5
+	// a watcher is only ever created where its consumer is started: in setup, which configure
+	// follows with the goroutine that reads the events. A watcher created anywhere else (e.g. a
+	// retry in update) has no reader: events queue up unread while update() stops forcing refreshes
+	for _, fn := range c.U.RepoFuncs("cdi") {
+		for _, call := range ir.Calls(fn) {
+			if f := call.Common().StaticCallee(); f != nil && f.String() == "github.com/fsnotify/fsnotify.NewWatcher" {
+				r.Check("C11.5", "watcher-has-consumer:"+c.U.RelName(fn), c.U.RelName(fn) == "(*watch).setup", c.pos(call), "fsnotify.NewWatcher is called in "+c.U.RelName(fn)+" (only setup, whose caller starts the event loop, may create a watcher)")
+			}
+		}
+	}
+	c.trackedNeverDeleted("C11.5")
 	if up := c.fn("C11.5", "cdi", "(*watch).update"); up != nil {
 		adds := []ssa.CallInstruction{}
 		for _, call := range ir.Calls(up) {
@@ -547,5 +558,23 @@ func runC11(c *Ctx) {
 		})
 		calls := c.callsTo(su, false, "cdi", "(*watch).update")
 		r.Check("C11.5", "setup", okInit && len(calls) == 1, c.U.Pos(su.Pos()), "setup registers every configured directory as untracked and then lets update add them")
+	}
+}
+
+// trackedNeverDeleted: tracked directories are never forgotten: a directory whose
+// Add fails stays pending whatever the error (ENOENT alone would be a wrong
+// criterion: ENOTDIR or EACCES are repaired later too).
+func (c *Ctx) trackedNeverDeleted(rule string) {
+	n := 0
+	for _, fn := range c.U.RepoFuncs("cdi") {
+		for _, call := range ir.Calls(fn) {
+			if ir.BuiltinName(call) == "delete" && strings.HasSuffix(c.exprDesc(call.Common().Args[0]), ".tracked") {
+				n++
+				c.R.Violation(rule, "tracked-never-deleted:"+c.U.RelName(fn), c.pos(call), "an entry of the tracked-directories table is deleted in "+c.U.RelName(fn)+": that directory is never watched or retried again, its error entry never goes away after the repair")
+			}
+		}
+	}
+	if n == 0 {
+		c.R.OK(rule, "tracked-never-deleted", "", "no entry of the tracked-directories table is ever deleted: a directory that cannot be watched stays pending and is retried at every update")
 	}
 }
